@@ -151,6 +151,18 @@ class Event:
         return "Ev(%s)" % self.kind
 
 
+def under(fr, D):
+    """the frame belongs to the derivation function D: D itself, or a helper of D's module inlined (transitively) into it"""
+    f = fr
+    while f is not None:
+        if f.func is D:
+            return True
+        if f.func is None or f.func.module is not D.module or f.func.cls is not None:
+            return False
+        f = f.parent
+    return False
+
+
 class DecHooks(Hooks):
     """models the three symbol processors and the index reader abstractly and logs graph events"""
 
@@ -239,7 +251,7 @@ class DecHooks(Hooks):
             items = [Num(Lin.var(k)), Num(Lin.var(k))]
             items[shape] = Num(Lin.var(q))
             return [(s2, Tup(items))]
-        if callee is R["D"] and fr.func is R["D"]:
+        if callee is R["D"] and under(fr, R["D"]):
             bound = eng.bind_args(callee, args, kwargs) or {}
             n = next(eng.counter)
             r = ("nrec", n)
@@ -247,7 +259,7 @@ class DecHooks(Hooks):
             s2.add_lin(ge(Lin.var(r), 0))
             s2.epoch += 1
             return [(s2, Num(Lin.var(r)))]
-        if hasattr(callee, "is_property") and callee.cls is not None and callee.cls.name == "MolecularGraph" and fr.func is R["D"]:
+        if hasattr(callee, "is_property") and callee.cls is not None and callee.cls.name == "MolecularGraph" and under(fr, R["D"]):
             bound = eng.bind_args(callee, args[1:], kwargs, skip_self=True) or {}
             if callee.name in ("add_atom", "add_bond", "add_ring_bond", "update_bond_order", "add_placeholder_bond"):
                 s2 = self.tag(st, Event(callee.name, {"args": bound, "self": args[0]}, node))
@@ -262,13 +274,20 @@ class DecHooks(Hooks):
                 return [(s2, Unk(term))]
             return None
         if isinstance(callee, tuple) and callee[0] == "ext" and callee[1] == "builtins.next" and fr.func is R["D"] \
-                and fr.depth == 0 and len(args) == 1:
-            eng._raise(fr, node, "StopIteration", st)
+                and fr.depth == 0 and len(args) in (1, 2):
             s2 = self.tag(st, Event("next", {"iter": args[0]}, node))
             s2.epoch += 1
-            return [(s2, Unk(("next", vkey(args[0]), next(eng.counter))))]
+            out = [(s2, Unk(("next", vkey(args[0]), next(eng.counter))))]
+            if len(args) == 1:
+                eng._raise(fr, node, "StopIteration", st)
+            else:
+                # next(it, default): the exhausted iterator yields the default instead of raising
+                s3 = st.copy()
+                s3.epoch += 1
+                out.append((s3, args[1]))
+            return out
         if isinstance(callee, tuple) and callee[0] == "method" and callee[1] in ("append", "extend", "insert") \
-                and fr.func is R["D"]:
+                and under(fr, R["D"]):
             base = callee[2]
             if isinstance(base, Unk) and base.term == ("param", R["D"].qual, R["queue"]):
                 s2 = self.tag(st, Event("queue", {"value": args[-1] if args else None, "op": callee[1]}, node))
@@ -302,7 +321,8 @@ def atom_order_range(ctx):
     import re._parser as sre
     from sa.fold import FPattern, FFunc
     fo = ctx.fold
-    pat = fo.global_value("selfies.grammar_rules", "SELFIES_ATOM_PATTERN")
+    from rules.symlang import atom_pattern_name
+    pat = fo.global_value(*atom_pattern_name(ctx))
     if not isinstance(pat, FPattern):
         raise AnalysisError("SELFIES_ATOM_PATTERN does not fold to a compiled pattern")
     tree = sre.parse(pat.pattern)
